@@ -78,6 +78,16 @@ CHECKS = {
         "Shapes as encoded in harness/shapes.py; ranges validated against the server's own buffer of the target document.",
         "DESIGN.md §3 C09",
     ),
+    "C20": (
+        "exploration",
+        "enumerated cycle catalogue x Hypothesis-drawn embeddings, probed with every positional request in a CPU-bounded isolated worker (totality / shape / range / no-recursion-error oracle)",
+        "14 cycle shapes (USE, USE with renames, EXTENDS, submodule ancestry, pointer init, ASSOCIATE, SELECT TYPE, type-bound links, procedure "
+        "pointers, Fortran INCLUDE, #include, recursive component types, deep member chains, generic interfaces) x length 1-4 x 1-4 files are "
+        "indexed at start-up and through didOpen/didSave, then every positional method is sent at every identifier; an error response, a "
+        "recursion message, a dead server, a malformed answer or more than 60 s CPU is a violation.",
+        "Bounded time is decided with a generous CPU bound; the catalogue is finite (shapes listed in checks/c20.py).",
+        "DESIGN.md §3 C20",
+    ),
 }
 
 NOT_YET = "check not built yet in this session (work in progress; see DESIGN.md §3 for the planned generator and oracle)"
